@@ -47,6 +47,32 @@ func scenC01(c *ctx) {
 		key := c.someKey()
 		c.rec.Emit(doGenerateHOTP(fmt.Sprintf("C01/nil/%d", i), c.someSpelling(key), c.someCounter(), P{Nil: true}))
 	}
+	// back-to-back calls that differ in exactly ONE argument (hash, digits, counter, secret, nil/explicit): whatever an
+	// implementation remembers between calls must be keyed by all of them
+	for i := 0; i < c.n(25, 400); i++ {
+		key := c.someKey()
+		key2 := append([]byte{}, key...)
+		if len(key2) > 0 {
+			key2[len(key2)-1] ^= 1
+		} else {
+			key2 = []byte{1}
+		}
+		ctr := c.someCounter()
+		d := okDigits[c.rng.Intn(len(okDigits))]
+		a := uint8(c.rng.Intn(3))
+		seq := []struct {
+			k   []byte
+			c   uint64
+			d   uint8
+			a   uint8
+			nil bool
+		}{{key, ctr, d, a, false}, {key, ctr, d, (a + 1) % 3, false}, {key, ctr, d, a, false}, {key, ctr, okDigits[(int(d)+3)%len(okDigits)], a, false},
+			{key, ctr + 1, d, a, false}, {key, ctr, d, a, false}, {key2, ctr, d, a, false}, {key, ctr, 6, 0, true}, {key, ctr, d, a, false},
+			{key[:len(key)/2], ctr, d, a, false}, {key, ctr, d, (a + 2) % 3, false}, {key, ctr ^ (1 << 40), d, a, false}, {key, ctr, d, a, false}}
+		for k, x := range seq {
+			c.rec.Emit(doGenerateHOTP(fmt.Sprintf("C01/sib/%d/%d", i, k), b32(x.k), x.c, P{Nil: x.nil, Digits: x.d, Alg: x.a}))
+		}
+	}
 	// random
 	for i := 0; i < c.n(1500, 60000); i++ {
 		key := c.someKey()
@@ -111,6 +137,20 @@ func scenC02(c *ctx) {
 	// nil parameter = SHA1, 6 digits, 30 s
 	for i := 0; i < c.n(40, 400); i++ {
 		emit("nil", c.someKey(), c.rng.Int63n(1<<40), i, P{Nil: true})
+	}
+	// back-to-back calls that differ in exactly one argument (hash, digits, period, instant, secret)
+	for i := 0; i < c.n(25, 400); i++ {
+		key := c.someKey()
+		sec := c.rng.Int63n(1 << 40)
+		d := okDigits[c.rng.Intn(len(okDigits))]
+		a := uint8(c.rng.Intn(3))
+		for k, p := range []P{{Digits: d, Alg: a, Period: 30}, {Digits: d, Alg: (a + 1) % 3, Period: 30}, {Digits: d, Alg: a, Period: 30}, {Digits: d, Alg: a, Period: 60},
+			{Digits: d, Alg: a, Period: 0}, {Digits: okDigits[(int(d)+2)%len(okDigits)], Alg: a, Period: 30}, {Nil: true}, {Digits: d, Alg: a, Period: 30}} {
+			emit(fmt.Sprintf("sib%d", k), key, sec, k, p)
+			if k%3 == 2 {
+				emit(fmt.Sprintf("sibt%d", k), key, sec+30, k, p)
+			}
+		}
 	}
 	// period larger than the time, period 1
 	for i := 0; i < c.n(30, 300); i++ {
